@@ -51,7 +51,8 @@ REQUIRED = ["sphere_checked", "cap_checked", "frustum_checked", "ss_intersection
             "ss_smaller_first", "sf_far_end_order", "sf_taper_narrowing", "sf_taper_widening",
             "sf_frustum_inside_sphere", "sf_h_below_r", "sf_h_above_r", "sf_axis_aligned",
             "sf_union_from_frustum", "integer_centres", "integer_sizes",
-            "integer_sizes_cube_beyond_int64", "direction_near_axis", "micro_or_huge_sizes"]
+            "integer_sizes_cube_beyond_int64", "direction_near_axis", "micro_or_huge_sizes",
+            "sizes_as_numpy_scalars_or_0d_arrays", "rejected_call_before_get_volume"]
 FLOOR = {"quick": 3000, "thorough": 80000}
 SHARDS = {"quick": 8, "thorough": 16}
 
@@ -97,6 +98,18 @@ def _dir(case):
     return u / np.linalg.norm(u)
 
 
+def _vol(ctx, case, obj):
+    """get_volume() of a composite; every other time the caller first tried to pass a sampling
+    option these closed-form objects do not take (rejected with TypeError) -- the plain call
+    afterwards still reports the closed form."""
+    if case.get("bad_call_first"):
+        try:
+            obj.get_volume(n_samples=200)
+        except TypeError:
+            ctx.count("rejected_call_before_get_volume")
+    return obj.get_volume()
+
+
 def execute(ctx, case):
     from swcgeom.utils import VolFrustumCone, VolSphere
 
@@ -106,6 +119,11 @@ def execute(ctx, case):
         ctx.count("integer_sizes")
         if case["r1"] >= 2097152:
             ctx.count("integer_sizes_cube_beyond_int64")
+    if case.get("size_form") and not case.get("int_sizes"):
+        # the same sizes as numpy scalars or 0-d arrays (what indexing / np.asarray hand out)
+        mk = {"np64": np.float64, "zero_d": lambda v: np.array(float(v))}[case["size_form"]]
+        case = dict(case, **{q: mk(case[q]) for q in ("r1", "r2", "h", "d") if q in case})
+        ctx.count("sizes_as_numpy_scalars_or_0d_arrays")
     if case.get("near_axis"):
         ctx.count("direction_near_axis")
     if case.get("wide"):
@@ -157,12 +175,12 @@ def execute(ctx, case):
             # formula divides an O(r^4) cancellation by d, so rounding alone contributes about
             # eps * r^4 / d; this is float noise (2e-7 relative at d/r = 1e-9), not a wrong volume
             cond = 4e-16 * (r1 + r2) ** 4 / dd if dd > 0 else 0.0
-            gi = s1.intersect(s2).get_volume()
+            gi = _vol(ctx, case, s1.intersect(s2))
             ctx.count("ss_intersections")
             if _cmp(ctx, case, f"sphere n sphere (r1={r1:.4g}, r2={r2:.4g}, d={dd:.6g}, "
                                f"{case['rel']})", gi, ti, min(v1, v2), max(v1, v2), cond):
                 return
-            gu = s1.union(s2).get_volume()
+            gu = _vol(ctx, case, s1.union(s2))
             ctx.count("ss_unions")
             return _cmp(ctx, case, f"sphere u sphere (r1={r1:.4g}, r2={r2:.4g}, d={dd:.6g}, "
                                    f"{case['rel']})", gu, v1 + v2 - ti, min(v1, v2), max(v1, v2), cond)
@@ -195,15 +213,15 @@ def execute(ctx, case):
                 ctx.count("sf_axis_aligned")
             what = f"(r_sphere={r1:.5g}, r_far={r2:.5g}, h={hh:.5g}, far_order={far}, u=" \
                    f"{np.round(u, 3).tolist()})"
-            gi = s.intersect(fc).get_volume()
+            gi = _vol(ctx, case, s.intersect(fc))
             ctx.count("sf_intersections")
             if _cmp(ctx, case, "sphere n frustum " + what, gi, ti, min(vs, vf), max(vs, vf), allow):
                 return
             if case.get("union_from") == "frustum":
-                gu = fc.union(s).get_volume()
+                gu = _vol(ctx, case, fc.union(s))
                 ctx.count("sf_union_from_frustum")
             else:
-                gu = s.union(fc).get_volume()
+                gu = _vol(ctx, case, s.union(fc))
             ctx.count("sf_unions")
             return _cmp(ctx, case, "sphere u frustum " + what, gu, vs + vf - ti, min(vs, vf),
                         max(vs, vf), allow)
@@ -249,6 +267,9 @@ def draw(rng):
             "wide": bool(wide)}
     if rng.random() < 0.2:
         base["int_centre"] = str(rng.choice(["tuple", "array"]))
+    if rng.random() < 0.25:
+        base["size_form"] = str(rng.choice(["np64", "zero_d"]))
+    base["bad_call_first"] = bool(rng.random() < 0.4)
     if rng.random() < 0.12:
         # sizes given as Python ints (what `VolSphere(c, 3)` passes), small and very large
         base["int_sizes"] = True
